@@ -14,7 +14,9 @@ func (sel *Selection) XFind(path *xpath.Path) (*Selection, error) {
 		if p == nil || err != nil {
 			return nil, err
 		}
-		xp = xp.Next
+		// resolvePath follows the segments after xp itself, resolving them a second
+		// time from where they lead fails for paths of three or more segments
+		break
 	}
 	return p, nil
 }
